@@ -250,6 +250,7 @@ type task struct {
 	tag, id      int // id < 0: scheduled through Executor.ExecuteAt
 	dueClock     int
 	far          bool          // due at an instant far away from the session (farInstant)
+	rep          byte          // how the instant is handed to ExecuteAt (represent); 0: as computed (monotonic reading, Local)
 	after        time.Duration // > 0: given through ExecuteAfter with this delay
 	due          time.Time
 	kind         kind
@@ -317,6 +318,43 @@ func (w *world) fail(oracle, detail string, sig map[string]string) {
 func (w *world) at(clock int) time.Time { return w.base.Add(time.Duration(clock) * w.unit) }
 
 func (w *world) idx(t time.Time) int { return int(t.Sub(w.base) / w.unit) }
+
+// represent: the same instant in another representation.  A due clock of an op line may carry a one-letter suffix:
+//   w  wall-clock reading only (monotonic reading stripped), Local
+//   u  wall-clock reading only, UTC
+//   e  zone UTC+05:30, monotonic reading kept (time.Time.In keeps it)
+//   a  zone UTC-08:00, wall-clock reading only
+// The model knows instants only (the suffix is dropped by the driver): heap order (HeapKey.CompareTo), the timer of
+// Poll (time.Until), and every comparison of scheduled times must go by the instant, not by the representation
+// (time.Time == compares wall reading, monotonic reading and *Location).  The oracles keep using the value with the
+// monotonic reading, so a step of the wall clock cannot make a delivery look early.
+func represent(t time.Time, rep byte) time.Time {
+	switch rep {
+	case 'w':
+		return t.Round(0)
+	case 'u':
+		return t.Round(0).UTC()
+	case 'e':
+		return t.In(time.FixedZone("east", 5*3600+1800))
+	case 'a':
+		return t.Round(0).In(time.FixedZone("west", -8*3600))
+	}
+
+	return t
+}
+
+// splitRep splits the representation suffix off a due token ("17u" -> "17", 'u'); far instants have none.
+func splitRep(tok string) (string, byte) {
+	if n := len(tok); n >= 2 && strings.IndexByte("wuea", tok[n-1]) >= 0 {
+		if _, err := strconv.Atoi(tok[:n-1]); err == nil {
+			return tok[:n-1], tok[n-1]
+		}
+	}
+
+	return tok, 0
+}
+
+func (t *task) arg() time.Time { return represent(t.due, t.rep) }
 
 // farClock is the first of the clock values that stand for instants a session never reaches.
 const farClock = 1000000
@@ -466,7 +504,7 @@ func (w *world) execTracked(t *task) string {
 			t.due = time.Now().Add(t.after)
 			h = w.te.ExecuteAfter(t.id, cb, t.after)
 		} else {
-			h = w.te.ExecuteAt(t.id, cb, t.due)
+			h = w.te.ExecuteAt(t.id, cb, t.arg())
 		}
 	})
 	if replacing {
@@ -592,22 +630,24 @@ func (w *world) exec(f []string, now int) string {
 		farTok := ""
 		if f[0] == "add" || f[0] == "addafter" {
 			tag, _ := strconv.Atoi(f[1])
-			due, _ := strconv.Atoi(f[2])
+			dueTok, rep := splitRep(f[2])
+			due, _ := strconv.Atoi(dueTok)
 			k, ok := parseKind(f[3])
-			if !ok {
+			if !ok || (rep != 0 && f[0] != "add") {
 				return "bad-op"
 			}
-			t = &task{tag: tag, id: -1, dueClock: due, kind: k}
+			t = &task{tag: tag, id: -1, dueClock: due, kind: k, rep: rep}
 			farTok = f[2]
 		} else {
 			id, _ := strconv.Atoi(f[1])
 			tag, _ := strconv.Atoi(f[2])
-			due, _ := strconv.Atoi(f[3])
+			dueTok, rep := splitRep(f[3])
+			due, _ := strconv.Atoi(dueTok)
 			k, ok := parseKind(f[4])
-			if !ok {
+			if !ok || (rep != 0 && f[0] != "exec") {
 				return "bad-op"
 			}
-			t = &task{tag: tag, id: id, dueClock: due, kind: k}
+			t = &task{tag: tag, id: id, dueClock: due, kind: k, rep: rep}
 			farTok = f[3]
 		}
 		if strings.HasSuffix(f[0], "after") {
@@ -646,7 +686,7 @@ func (w *world) exec(f []string, now int) string {
 				t.due = time.Now().Add(t.after)
 				h = w.te.Executor.ExecuteAfter(cb, t.after)
 			} else {
-				h = w.te.Executor.ExecuteAt(cb, t.due)
+				h = w.te.Executor.ExecuteAt(cb, t.arg())
 			}
 		}); p != "" {
 			return "panic"
@@ -1274,6 +1314,16 @@ func genCase(rng *hx.Rng) []string {
 
 		return ""
 	}
+	// equal instants differently represented: a quarter of the ExecuteAt calls get their time.Time without monotonic
+	// reading and/or in another time zone (see represent)
+	repSuffix := func() string {
+		if rng.Chance(1, 4) {
+			return hx.Pick(rng, []string{"w", "u", "e", "a"})
+		}
+
+		return ""
+	}
+	lastDue := map[int]int{}   // identifier -> due clock of its last ExecuteAt (plain / block / cself)
 	used := map[int]bool{}     // due clocks handed out so far
 	reserved := map[int]bool{} // due clocks of armed tasks: nobody else may have them
 	fix := func(d int, unique bool) int {
@@ -1338,6 +1388,15 @@ func genCase(rng *hx.Rng) []string {
 
 				break
 			}
+			if d, ok := lastDue[id]; ok && !reserved[d] && rng.Chance(1, 7) {
+				// re-arm the identifier for the same instant, handed over in another representation: the new task
+				// replaces the pending one all the same
+				trackedTags = append(trackedTags, mytag)
+				lines = append(lines, fmt.Sprintf("%d exec %d %d %d%s plain", clock, id, mytag, d, hx.Pick(rng, []string{"", "w", "u", "e", "a"})))
+				tag++
+
+				break
+			}
 			after := rng.Chance(1, 4)
 			due, k := genTask(true, after)
 			trackedTags = append(trackedTags, mytag)
@@ -1345,7 +1404,10 @@ func genCase(rng *hx.Rng) []string {
 				// TaskExecutor.ExecuteAfter with the delay that gives the same due clock
 				lines = append(lines, fmt.Sprintf("%d execafter %d %d %d %s", clock, id, mytag, due-clock, k))
 			} else {
-				lines = append(lines, fmt.Sprintf("%d exec %d %d %d %s", clock, id, mytag, due, k))
+				lines = append(lines, fmt.Sprintf("%d exec %d %d %d%s %s", clock, id, mytag, due, repSuffix(), k))
+				if !strings.HasPrefix(k, "rs:") {
+					lastDue[id] = due
+				}
 			}
 			tag++
 		case x < 55:
@@ -1362,7 +1424,7 @@ func genCase(rng *hx.Rng) []string {
 			if due > clock && after {
 				lines = append(lines, fmt.Sprintf("%d addafter %d %d %s", clock, mytag, due-clock, k))
 			} else {
-				lines = append(lines, fmt.Sprintf("%d add %d %d %s", clock, mytag, due, k))
+				lines = append(lines, fmt.Sprintf("%d add %d %d%s %s", clock, mytag, due, repSuffix(), k))
 			}
 			rawTags = append(rawTags, mytag)
 			tag++
@@ -1404,10 +1466,10 @@ func genCase(rng *hx.Rng) []string {
 			lines = append(lines, fmt.Sprintf("%d arm %d", clock, tag))
 			clock += 2
 			if rng.Bool() {
-				lines = append(lines, fmt.Sprintf("%d add %d %d plain", clock, tag, due))
+				lines = append(lines, fmt.Sprintf("%d add %d %d%s plain", clock, tag, due, repSuffix()))
 				rawTags = append(rawTags, tag)
 			} else {
-				lines = append(lines, fmt.Sprintf("%d exec %d %d %d plain", clock, rng.Range(1, 3), tag, due))
+				lines = append(lines, fmt.Sprintf("%d exec %d %d %d%s plain", clock, rng.Range(1, 3), tag, due, repSuffix()))
 			}
 			toRelease = append(toRelease, tag)
 			armedOne = true
@@ -1528,6 +1590,24 @@ func corpus() [][]string {
 			c = append(c, []string{"new 1 0", "0 arm 10", "2 exec 1 10 5 plain", "4 exec 2 11 17 plain", "6 xshutdown -", "8 cancel 1", "10 release 10", "end 22"})
 		}
 	}
+	// Equal instants differently represented (see represent): re-arming an identifier for the same instant replaces
+	// the pending task whatever the two time.Time values look like (all 25 pairs; the first task must never run, the
+	// second runs once at 9), ...
+	reps := []string{"", "w", "u", "e", "a"}
+	for _, a := range reps {
+		for _, b := range reps {
+			c = append(c, []string{"new 1 0", "0 exec 1 10 9" + a + " plain", "2 exec 1 11 9" + b + " plain", "4 cancel 2", "end 12"})
+		}
+	}
+	// ... three identifiers and a raw task for the same instant in four representations are a tie in the heap (run order
+	// = pop order of the model), a Cancel(id) in between takes out exactly its own; the same on a bounded queue; an
+	// armed task whose poller waits in the hook for a wall-clock-only instant while the element is cancelled
+	c = append(c,
+		[]string{"new 1 0", "0 exec 1 10 9u plain", "2 exec 2 11 9e plain", "4 add 12 9a plain", "6 exec 3 13 9w plain", "8 cancel 2", "end 12"},
+		[]string{"new 2 0", "0 exec 1 10 9a plain", "2 exec 2 11 7u plain", "4 exec 1 12 7e plain", "6 exec 2 13 9w plain", "end 12"},
+		[]string{"new 1 2", "0 exec 1 10 5w block", "4 exec 2 11 9u plain", "6 exec 3 12 9e plain", "8 exec 1 13 9a plain", "10 cancel 2", "12 release 10", "end 16"},
+		[]string{"new 1 0", "0 arm 10", "2 add 10 5w plain", "4 add 11 9u plain", "6 ecancel 10", "8 release 10", "end 12"},
+		[]string{"new 1 0", "0 arm 10", "2 exec 1 10 5a plain", "4 exec 1 11 5e plain", "8 release 10", "end 12"})
 
 	return c
 }
@@ -2774,6 +2854,9 @@ func emit(r *rec, sub uint64, res caseResult) {
 		r.Count("op:" + k)
 		if k == "exec" || k == "add" {
 			r.Count("kind:" + strings.Split(f[len(f)-1], ":")[0])
+			if _, rep := splitRep(f[len(f)-2]); rep != 0 {
+				r.Count("due-representation:" + string(rep))
+			}
 		}
 		if k == "shutdown" || k == "xshutdown" {
 			r.Count("flags:" + f[2])
